@@ -80,4 +80,13 @@ example :
       .callResume 0, .cycle [0]]
     s.nt = 1 ∧ (s.xs 0).quiet = true := by decide
 
+/-- the peer refuses the queue request while the remote-queue attempt is still connecting: the download is FAILED
+(a state `abort` refuses) with a live task; `remove` takes it off the list at once, cancels the task and returns
+only when it is gone — the attempt never delivers (`rq` stays false, nothing counted after the first connect) -/
+example :
+    let s := run [.addDownload, .cycle [0], .taskStart 0, .peerFail 0, .call 0 .remove, .callResume 0, .cycle [0],
+      .taskEnd 0 .ok, .doneCallback 0, .callResume 0, .cycle [0]]
+    (s.xs 0).st = .failed ∧ (s.xs 0).removed = true ∧ (s.xs 0).quiet = true ∧ (s.xs 0).rq = false ∧
+      (s.xs 0).acts = 1 ∧ s.nt = 1 ∧ (s.tasks 0).live = false := by decide
+
 end AioslskVerif.C06
